@@ -437,3 +437,57 @@ UNITS += [
 REPLAYS = [("C03", "SP: a delegate cancelled by someone else ends the polled future", "replay/c03_delegate_cancelled_outside.py"),
            ("C08", "PollFuture.__init__", "replay/c08_descriptor_of_resolved_future.py"), ("C03", "PollFuture.__init__", "replay/c08_descriptor_of_resolved_future.py"),
            ("C12", "PollFuture.__init__", "replay/c08_descriptor_of_resolved_future.py")]
+
+
+# ---- PollDescriptor.yield_result / yield_exception: what the poll function's calls do to the future -------------------------------
+def _cfg_yield():
+    cfg = _cfg_fut()
+    # the future's own setters are under contract (units PollFuture.set_result / set_exception: first resolution wins, later ones are no-ops)
+    for m in ("set_result", "set_exception", "set_exception_info"):
+        cfg.contracts["more_executors._impl.poll.PollFuture." + m] = RecordCall(may_raise="InvalidStateError" if m != "set_exception_info" else "AttributeError")
+    return cfg
+
+
+def _setup_yield(kind):
+    def setup(engine, st):
+        d = sym_inst(engine, st, "PollDescriptor", "descriptor")
+        did = Val.id(d.t)
+        fut = engine.typed(st, st.get("_PollDescriptor__future", did), INST("PollFuture"))
+        v = sym_val(engine, st, "any" if kind == "result" else "exc", "value")
+        return [d, v], {}, {"d": d, "fut": fut, "v": v, "kind": kind}
+    return setup
+
+
+def _post_yield(engine, st, ctx, out):
+    sets = [e for e in st.trace if e.kind == "repo-call" and ".PollFuture.set_" in e.meth and not (e.meth.endswith("set_exception_info") and e.exc is not None)]
+    cl = [("a yield never raises into the poll function (a future resolved or cancelled meanwhile is tolerated)", "EX", not isinstance(out, Raise), ["C08", "C18"])]
+    if ctx["kind"] == "result":
+        ok = len(sets) == 1 and sets[0].meth.endswith("set_result")
+        cl.append(("yield_result(x) offers exactly x, once, to the descriptor's own future", "PC",
+                   z3.And(z3.BoolVal(ok), sets[0].args[0] == ctx["fut"].t if ok else False, sets[0].args[1] == ctx["v"].t if ok else False), ["C08", "C01"]))
+    else:
+        ok = 1 <= len(sets) <= 2 and all(e.meth.endswith(("set_exception", "set_exception_info")) for e in sets)
+        cl.append(("yield_exception(e) offers exactly e to the descriptor's own future (set_exception_info on python 2, else set_exception)", "PC",
+                   z3.And(z3.BoolVal(ok), z3.And([z3.And(e.args[0] == ctx["fut"].t, e.args[1] == ctx["v"].t) for e in sets] or [z3.BoolVal(False)])), ["C08", "C01", "C18"]))
+    return cl
+
+
+UNITS += [
+    Unit("PollDescriptor.yield_result", "poll.PollDescriptor.yield_result", ["C08", "C01", "C18"], _setup_yield("result"), _post_yield, cfg=_cfg_yield, self_cls="PollDescriptor"),
+    Unit("PollDescriptor.yield_exception", "poll.PollDescriptor.yield_exception", ["C08", "C01", "C18"], _setup_yield("exception"), _post_yield, cfg=_cfg_yield, self_cls="PollDescriptor"),
+]
+
+
+def _setup_notify(engine, st):
+    ex = sym_inst(engine, st, "PollExecutor", "executor")
+    return [ex], {}, {"ex": ex, "sid": Val.id(ex.t)}
+
+
+def _post_notify(engine, st, ctx, out):
+    sets = [e for e in st.trace if e.kind == "event-set"]
+    return [("notify() wakes the poll thread: it sets this executor's own poll event (and does nothing else)", "WK",
+             z3.And(z3.BoolVal(len(sets) == 1 and not isinstance(out, Raise) and not [e for e in st.trace if e.kind in ("call", "write", "acquire")]),
+                    sets[0].recv == Val.id(st.get("_poll_event", ctx["sid"])) if sets else False), ["C08", "C03"])]
+
+
+UNITS.append(Unit("PollExecutor.notify", "poll.PollExecutor.notify", ["C08", "C03"], _setup_notify, _post_notify, cfg=_cfg, self_cls="PollExecutor"))
